@@ -647,6 +647,21 @@ Theorem c12_source_instr_progress : forall (pc : pconfig) (ms : list task) (t : 
 Proof. exact src_pm_progress. Qed.
 Print Assumptions c12_source_instr_progress.
 
+(* fairness implies termination at instruction granularity: if every window of T consecutive instruction steps
+   contains every task, everything has finished after T * imu(initial state) steps — no request is lost, whatever
+   the (fair) interleaving of single instructions *)
+From RM Require Import C12.ProgFair.
+Theorem c12_source_instr_fair_schedule_finishes : forall (pc : pconfig) (T : nat) (ms : list task),
+  fair (length (ptasks pc)) T ms -> T * imu (cfg pc) (length (ptasks pc)) (pinit pc) <= length ms ->
+  pall_done pc (pmrun src_program pc ms) = true.
+Proof. exact src_pm_fair_finishes. Qed.
+Print Assumptions c12_source_instr_fair_schedule_finishes.
+
+Example c12_nonvacuous_instr_fair :
+  imu (cfg two_fill) 2 (pinit two_fill) = 34 /\
+  pall_done two_fill (pmrun src_program two_fill (concat (repeat [0; 1] 20))) = true.
+Proof. split; [exact imu_two_fill|vm_compute; reflexivity]. Qed.
+
 Example c12_nonvacuous_instr :
   let s1 := pmrun src_program two_fill [0; 0; 0; 0; 0; 1; 1] in
   req (psh s1) = 1 /\ calls (psh s1) = [] /\ lock (psh s1) 0 = Some 0 /\ waiting (snd (ppcs s1 1)) = true /\
